@@ -88,6 +88,8 @@ pub struct Checked {
     pub infix_errors: bool,
     /// typechecker reported errors
     pub type_errors: bool,
+    /// `UndefinedVariable(name)` errors of the typechecker: (start of the span, declared name)
+    pub undefined: Vec<(u32, String)>,
 }
 
 /// `None`: the parser produced no AST at all. Panics of the front end itself propagate (the
@@ -104,6 +106,7 @@ pub fn check(text: &str) -> Option<Checked> {
         }
     };
     let src = source::FileMap::new("test".into(), text.to_string());
+    let mut undefined = vec![];
     let (metadata, infix_errors, type_errors) = {
         let (arena, expr) = expr.arena_expr();
         let arena = arena.borrow();
@@ -124,7 +127,17 @@ pub fn check(text: &str) -> Option<Checked> {
                 &mut metadata,
                 arena,
             );
-            tc.typecheck_expr(expr).is_err()
+            match tc.typecheck_expr(expr) {
+                Ok(_) => false,
+                Err(errors) => {
+                    for e in &errors {
+                        if let gluon_check::typecheck::TypeError::UndefinedVariable(id) = &e.value.error {
+                            undefined.push((e.span.start().0, id.declared_name().to_string()));
+                        }
+                    }
+                    true
+                }
+            }
         };
         (metadata, infix_errors, type_errors)
     };
@@ -135,5 +148,6 @@ pub fn check(text: &str) -> Option<Checked> {
         parse_errors,
         infix_errors,
         type_errors,
+        undefined,
     })
 }
